@@ -6,6 +6,7 @@ require (
 	github.com/cossacklabs/acra v0.0.0
 	github.com/cossacklabs/themis/gothemis v0.14.0
 	github.com/sirupsen/logrus v1.6.0
+	google.golang.org/grpc v1.56.3
 )
 
 require (
@@ -33,8 +34,9 @@ require (
 	golang.org/x/net v0.38.0 // indirect
 	golang.org/x/sync v0.12.0 // indirect
 	golang.org/x/sys v0.31.0 // indirect
+	golang.org/x/text v0.23.0 // indirect
 	google.golang.org/api v0.107.0 // indirect
-	google.golang.org/grpc v1.56.3 // indirect
+	google.golang.org/genproto v0.0.0-20230410155749-daa745c078e1 // indirect
 	google.golang.org/protobuf v1.33.0 // indirect
 	gopkg.in/yaml.v2 v2.4.0 // indirect
 )
